@@ -233,6 +233,8 @@ func c04(r *ev.Run) {
 	r.Require("ask_redirects_observed", 20)
 	c04FailoverNoticed(r)
 	c04AskUnderSaturation(r)
+	c04RedirectChain(r)
+	r.Require("requests_served_after_three_redirections", 10)
 	r.Require("moved_redirects_observed", 10)
 	r.Require("migrations_completed", 10)
 	r.Require("failovers_completed", 3)
@@ -903,4 +905,83 @@ func c04AskUnderSaturation(r *ev.Run) {
 	}
 	r.Case("ask-under-saturation")
 	r.Require("ask_redirected_writes_under_saturation", 20)
+}
+
+// c04RedirectChain: a stale route followed by a node that has handed the slot on, followed by a migrating slot: the request is
+// answered MOVED, MOVED, ASK before it reaches the node that serves it ("two or three redirections" is what the proxy's own limit is
+// documented for). The refresh cannot help (the nodes refuse CLUSTER NODES meanwhile): every request must still be answered by the
+// importing node, never with a redirection error.
+func c04RedirectChain(r *ev.Run) {
+	s, err := startSUT(r, false, 600000, 20)
+	if err != nil {
+		r.Internal("start sut: %v", err)
+		return
+	}
+	defer s.Close()
+	cl, err := fakecluster.New(4, 0)
+	if err != nil {
+		r.Internal("fakecluster: %v", err)
+		return
+	}
+	defer cl.Close()
+	cl.AssignContiguous()
+	cl.LogArgs = false
+	var refuse int32
+	for _, n := range cl.Nodes {
+		n.Handler = func(c *fakecluster.Conn, args [][]byte) (fakecluster.Reply, bool) {
+			if atomic.LoadInt32(&refuse) == 1 && strings.EqualFold(string(args[0]), "cluster") {
+				return fakecluster.Reply{Raw: []byte("-ERR try again later\r\n")}, true
+			}
+			return fakecluster.Reply{}, false
+		}
+	}
+	svc, err := startRedisSvc(s, cl, cl.Addrs(), RedisOpts{})
+	if err != nil || !svc.WaitRouting(1, 10*time.Second) {
+		r.Internal("service did not start: %v", err)
+		return
+	}
+	defer s.StopProc(svc.Name, 20*time.Second)
+	atomic.StoreInt32(&refuse, 1)
+	a, b, c, d := cl.Nodes[0], cl.Nodes[1], cl.Nodes[2], cl.Nodes[3]
+	n := 20
+	if r.Tier == "thorough" {
+		n = 150
+	}
+	keys := keysFor(cl, a, n, "chain")
+	cl.Lock()
+	for _, k := range keys {
+		sl := fakecluster.Slot([]byte(k))
+		cl.SetOwnerLocked(sl, b, a)       // the node the proxy asks first has handed the slot to b
+		cl.SetOwnerLocked(sl, c, b, c, d) // b has handed it on to c
+		c.SetMigratingLocked(sl, d)       // and c is migrating it to d (the keys are not there yet / any more)
+		d.SetImportingLocked(sl, c)
+	}
+	cl.Unlock()
+	conn, err := svc.Dial()
+	if err != nil {
+		r.Internal("dial: %v", err)
+		return
+	}
+	defer conn.Close()
+	for i, k := range keys {
+		for _, cmd := range [][]string{{"GET", k}, {"SET", k, fmt.Sprintf("v%d", i)}, {"GET", k}} {
+			v, err := conn.DoS(5*time.Second, cmd...)
+			if err != nil {
+				if sutDied(r, s, "redirect chain") {
+					return
+				}
+				r.Violation("C04:no-reply:redirect-chain", "a request that has to follow MOVED, MOVED, ASK got no reply", map[string]interface{}{"command": cmd})
+				return
+			}
+			if leakIn(v) {
+				r.Violation("C04:redirect-leaked-to-client:redirect-chain", "a request that has to follow three redirections (stale route -> MOVED -> MOVED -> ASK -> importing node) was answered with the redirection error although every node is reachable: "+v.String(),
+					map[string]interface{}{"command": cmd, "reply": v.String(), "chain": "proxy's route: node 0; node 0 says MOVED node 1; node 1 says MOVED node 2; node 2 (migrating, key absent) says ASK node 3"})
+				return
+			}
+			if cmd[0] == "GET" && len(cmd) == 2 && v.Kind == resp.Bulk && i >= 0 {
+				r.Count("requests_served_after_three_redirections", 1)
+			}
+		}
+		r.Case("redirect-chain")
+	}
 }
